@@ -236,7 +236,7 @@ fn plan_inner(id: &str, tier: &str, seed: u64, round: u64) -> Plan {
                 strum_features: vec!["derive".into()],
                 profiles: vec!["dev", "rel"],
                 policy: Policy::TaggedOnly,
-                rule: "programs: twin enums from one spec (Display+AsRefStr+IntoStaticStr+VariantNames / deprecated ToString+AsStaticStr), {no attr, to_string, 1..3 serialize of distinct lengths in every order, both} x prefix (incl. empty, non-ASCII) x 16 styles x const_into_str on/off x all kinds x generics. Oracle: model canonical name; up to eight observations per variant (format!, ToString derive, as_ref, as_static, From<E>, From<&E>, into_str, const-evaluated into_str) plus VariantNames::VARIANTS at every declaration index. Non-trivial = longest serialize literal not last, or a prefix, or a style that changes the identifier; distinct by (program, variant, derive).".into(),
+                rule: "programs: twin enums from one spec (Display+AsRefStr+IntoStaticStr+VariantNames / deprecated ToString+AsStaticStr), {no attr, to_string, 1..3 serialize of distinct lengths in every order, both} x prefix (incl. empty, non-ASCII) x 16 styles x const_into_str on/off x all kinds x generics; every sixth program field-less, a third of those with explicit discriminants in shuffled order; identifiers with a non-ASCII upper-case initial first under every style. Oracle: model canonical name; up to eight observations per variant (format!, ToString derive, as_ref, as_static, From<E>, From<&E>, into_str, const-evaluated into_str) plus VariantNames::VARIANTS at every declaration index. Non-trivial = longest serialize literal not last, or a prefix, or a style that changes the identifier; distinct by (program, variant, derive).".into(),
                 assumptions: vec!["longest serialize literal is unique (generator); statement silent on ties".into()],
             }
         }
@@ -315,7 +315,7 @@ fn plan_inner(id: &str, tier: &str, seed: u64, round: u64) -> Plan {
                 strum_features: vec!["derive".into(), "phf".into()],
                 profiles: vec!["dev", "rel"],
                 policy: Policy::TaggedOnly,
-                rule: "programs: enums with a default variant (tuple or single named field; inner String, Box<str>, Rc<str>, Arc<str>, a From<&str> wrapper) and/or transparent variants (inner String, &'static str, integers, a nested enum, a Spy type printing the formatter state), derive sets chosen so that the inner type satisfies them. Oracle: every input with no model match is captured verbatim (byte for byte) and from_str(s)?.to_string() == s; for transparent variants and default variants without to_string the whole 3740-cell format grid, as_ref and From<..> for &'static str equal what the inner field gives. Non-trivial = captured input within one edit / case flip / look-alike of a spelling or containing whitespace / non-ASCII; grid cell that pads or truncates.".into(),
+                rule: "programs: enums with a default variant (tuple or single named field; inner String, Box<str>, Rc<str>, Arc<str>, a From<&str> wrapper) and/or transparent variants (inner String, &'static str, integers, a nested enum, a Spy type printing the formatter state), derive sets chosen so that the inner type satisfies them; a seventh of the EnumString programs parse through the phf map (non-default variants field-less). Oracle: every input with no model match is captured verbatim (byte for byte) and from_str(s)?.to_string() == s; for transparent variants and default variants without to_string the whole 3740-cell format grid, as_ref and From<..> for &'static str equal what the inner field gives. Non-trivial = captured input within one edit / case flip / look-alike of a spelling or containing whitespace / non-ASCII; grid cell that pads or truncates.".into(),
                 assumptions: vec!["the inner field is located by a hand-written match emitted by the harness".into()],
             }
         }
@@ -393,7 +393,7 @@ fn plan_inner(id: &str, tier: &str, seed: u64, round: u64) -> Plan {
                 strum_features: vec!["derive".into()],
                 profiles: vec!["dev", "rel"],
                 policy: Policy::TaggedOnly,
-                rule: "programs: Display enums x all kinds x naming attributes x prefix x styles; fixed names (incl. multi-byte): the 22 fill/align/flag literals x width 0..16 x precision none/0..8 = 3740 renderings per variant must equal the same renderings of the canonical &str. Placeholder literals generated from pieces (text, {{ }}, {name[:spec]}/{index[:spec]} over every subset and order of named fields, every order of all tuple indices, specs >4 <6 ^5 03 + ? #x .2 e ...): the expected string is produced by std's format! on the IDENTICAL literal with the same payload (emitted by the harness next to the enum), payloads incl. extremes. Non-trivial = grid cell that pads or truncates; literal with >= 2 placeholders, a spec or an escaped brace; distinct by (program, variant, cell / payload).".into(),
+                rule: "programs: Display enums x all kinds x naming attributes x prefix x styles; fixed names (incl. multi-byte): the 22 fill/align/flag literals x width 0..16 x precision none/0..8 = 3740 renderings per variant must equal the same renderings of the canonical &str. Placeholder literals generated from pieces (text, {{ }}, {name[:spec]}/{index[:spec]} over every subset and order of named fields, every order of all tuple indices, specs >4 <6 ^5 03 + ? #x .2 e ...): the expected string is produced by std's format! on the IDENTICAL literal with the same payload (emitted by the harness next to the enum), payloads incl. extremes. A tenth of the literals is one bare placeholder ({0}, {v}); items also arrive through macro_rules! wrappers whose caller supplies the literals or the field names. A derive panic, a release-only failure, or a rejection of the enum's format core (literals format! accepts) is a violation. Non-trivial = grid cell that pads or truncates; literal with >= 2 placeholders, a spec or an escaped brace; distinct by (program, variant, cell / payload).".into(),
                 assumptions: vec!["outer format spec on an interpolated variant is not asserted (statement silent)".into()],
             }
         }
@@ -448,7 +448,7 @@ fn plan_inner(id: &str, tier: &str, seed: u64, round: u64) -> Plan {
                 strum_features: vec!["derive".into(), "phf".into()],
                 profiles: vec!["dev", "rel"],
                 policy: Policy::TaggedOnly,
-                rule: "programs: C01's domain without default variants; two thirds declare parse_err_ty/parse_err_fn (the emitted function counts its calls and stores its argument), one third does not. Oracle: model match => Ok and the call counter did not move; otherwise Err(e) with e carrying the caller's input byte for byte and the counter moved by exactly one, for from_str and try_from; FromStr::Err / TryFrom::Error are pinned by type ascription on a tagged line (a compile error there is a violation); without the attributes the error is ParseError::VariantNotFound. Non-trivial as C01.".into(),
+                rule: "programs: C01's domain without default variants (an eighth of them enums whose spellings all share a start, AppsStart / AppsStop .., named after their identifiers only); two thirds declare parse_err_ty/parse_err_fn (the emitted function counts its calls and stores its argument), one third does not. Oracle: model match => Ok and the call counter did not move; otherwise Err(e) with e carrying the caller's input byte for byte and the counter moved by exactly one, for from_str and try_from; FromStr::Err / TryFrom::Error are pinned by type ascription on a tagged line (a compile error there is a violation); without the attributes the error is ParseError::VariantNotFound. Non-trivial as C01.".into(),
                 assumptions: vec!["as C01".into()],
             }
         }
@@ -514,7 +514,7 @@ fn plan_inner(id: &str, tier: &str, seed: u64, round: u64) -> Plan {
                 strum_features: vec!["derive".into()],
                 profiles: vec!["dev", "rel"],
                 policy: Policy::TaggedOnly,
-                rule: "programs: EnumIter enums with N = 0..8 enabled variants (several each, with interleaved disabled variants, data variants, type parameters); histories: ALL sequences over {next, next_back, nth(k), nth_back(k), clone, switch-copy} with k in 0..N+1 (phase 1) and additionally usize::MAX-1, usize::MAX (phase 2) up to the stated depth, all skip/step_by/take/rev chains of depth <= 2, then proptest histories of length < 64; run in a dev build (overflow checks on) and a release build (off). Oracle: std's Range<usize> mirrored step by step (item, len, size_hint after every call, independent copies, drain + fusedness at the end, no panic). Non-trivial = history touching both ends, or nth/nth_back with k >= 1, or a copy; distinct by (program, history).".into(),
+                rule: "programs: EnumIter enums with N = 0..8 enabled variants (several each, with interleaved disabled variants, data variants, type parameters) plus two field-less enums with 36 and 67 variants and disabled variants in the middle (arguments thinned to both ends, the middle and one past the end); histories: ALL sequences over {next, next_back, nth(k), nth_back(k), clone, switch-copy} with k in 0..N+1 (phase 1) and additionally usize::MAX-1, usize::MAX (phase 2) up to the stated depth, all skip/step_by/take/rev chains of depth <= 2, then proptest histories of length < 64; run in a dev build (overflow checks on) and a release build (off). Oracle: std's Range<usize> mirrored step by step (item, len, size_hint after every call, independent copies, drain + fusedness at the end, no panic). Non-trivial = history touching both ends, or nth/nth_back with k >= 1, or a copy; distinct by (program, history).".into(),
                 assumptions: vec!["std::ops::Range<usize> is a correct double-ended exact-size fused iterator".into()],
             }
         }
